@@ -11,7 +11,38 @@ import (
 	"golang.org/x/tools/go/ssa"
 )
 
+// callOrdinal: 1-based position of a call among the function's calls in source order (builtins excluded).
+func (c *FnCtx) callOrdinal(x *ssa.Call) int {
+	if c.callOrd == nil {
+		c.callOrd = map[*ssa.Call]int{}
+		var calls []*ssa.Call
+		for _, b := range c.fn.Blocks {
+			for _, in := range b.Instrs {
+				if cl, ok := in.(*ssa.Call); ok {
+					if _, isB := cl.Call.Value.(*ssa.Builtin); !isB && cl.Pos().IsValid() {
+						calls = append(calls, cl)
+					}
+				}
+			}
+		}
+		sort.SliceStable(calls, func(i, j int) bool { return calls[i].Pos() < calls[j].Pos() })
+		for i, cl := range calls {
+			c.callOrd[cl] = i + 1
+		}
+	}
+	return c.callOrd[x]
+}
+
 func (c *FnCtx) instrCall(x *ssa.Call) {
+	defer func() {
+		// the state right after this call can be named in the contract: after(K, E)
+		if k := c.callOrdinal(x); k > 0 {
+			if c.callSnaps == nil {
+				c.callSnaps = map[int]heapState{}
+			}
+			c.callSnaps[k] = c.cur.clone()
+		}
+	}()
 	res := c.callCommon(&x.Call, x, x.Pos())
 	sig := x.Call.Signature()
 	switch sig.Results().Len() {
